@@ -20,17 +20,33 @@ theorem writeAll0_noFaults (cs : List Chunk) :
     simp [writeAll0, write0_noFaults, ih]
     omega
 
+theorem writeAll_noFaults (ps : List (List Char)) :
+    ∀ s : W, writeAll noFaults s ps = (⟨s.calls + ps.length, s.out ++ ps.flatten⟩, none) := by
+  induction ps with
+  | nil => intro s; simp [writeAll]
+  | cons p ps ih =>
+    intro s
+    simp [writeAll, write_noFaults, ih]
+    omega
+
 theorem lib_noFaults (n : Nat) (w : Nat → Nat → Int) :
     lib n w noFaults =
-      ⟨hdr1 ++ hdr2 n ++ hdr3 ++ (body n w).flatMap Chunk.bytes ++ trailer, none, 4 + (body n w).length,
-        allPairs n⟩ := by
+      ⟨(hdrWrites n).flatten ++ (body n w).flatMap Chunk.bytes ++ trailerWrites.flatten, none,
+        (hdrWrites n).length + (body n w).length + trailerWrites.length, allPairs n⟩ := by
   rw [lib_unfold]
-  simp [write_noFaults, writeAll0_noFaults, Res.of]
-  omega
+  simp [writeAll_noFaults, writeAll0_noFaults, Res.of]
+
+/-! ### the generated constants, as far as the proofs need their values -/
+
+/-- the padding character is a blank (the reader cuts fields at blanks) -/
+theorem padChar_eq : padChar = ' ' := by decide
+
+/-- at least one pad byte between columns -/
+theorem padding_pos : 0 < padding := by decide
 
 /-! ### bytes of one row -/
 
-theorem padChunks_bytes (k : Nat) : (padChunks k).flatMap Chunk.bytes = List.replicate k ' ' := by
+theorem padChunks_bytes (k : Nat) : (padChunks k).flatMap Chunk.bytes = List.replicate k padChar := by
   induction k using Nat.strongRecOn with
   | _ k ih =>
     rw [padChunks]
@@ -50,8 +66,10 @@ theorem rowCells_eq (w : Nat → Nat → Int) (i : Nat) :
     rowCells w i = (rowTexts w i).map (fun t => ⟨t, true⟩) ++ [⟨[], false⟩] := by
   simp [rowCells, rowTexts]
 
-/-- a cell as it appears in the output: padding, then the text (right-aligned) -/
-def cellBytes (p : Nat × List Char) : List Char := List.replicate (p.1 - p.2.length) ' ' ++ p.2
+/-- a cell as it appears in the output: padding then text (`AlignRight`) or text then padding -/
+def cellBytes (p : Nat × List Char) : List Char :=
+  if alignRight then List.replicate (p.1 - p.2.length) padChar ++ p.2
+  else p.2 ++ List.replicate (p.1 - p.2.length) padChar
 
 theorem writeCells_bytes (ts : List (List Char)) (hne : ∀ t ∈ ts, t ≠ []) :
     ∀ ws : List Nat, ws.length = ts.length →
@@ -62,7 +80,7 @@ theorem writeCells_bytes (ts : List (List Char)) (hne : ∀ t ∈ ts, t ≠ []) 
     intro ws h
     have : ws = [] := List.length_eq_zero_iff.mp h
     subst this
-    simp [writeCells]
+    simp [writeCells, writeCell]
   | cons t ts ih =>
     intro ws h
     cases ws with
@@ -71,10 +89,12 @@ theorem writeCells_bytes (ts : List (List Char)) (hne : ∀ t ∈ ts, t ≠ []) 
       have ht : t.length ≠ 0 := by
         have := hne t (by simp)
         intro h0; exact this (List.length_eq_zero_iff.mp h0)
-      simp only [List.map_cons, List.cons_append, writeCells, ht, if_false, List.flatMap_append,
-        padChunks_bytes, List.zip_cons_cons, List.flatMap_cons, cellBytes]
+      simp only [List.map_cons, List.cons_append, writeCells, writeCell, ht, if_false, List.flatMap_append,
+        List.zip_cons_cons, List.flatMap_cons, cellBytes]
       rw [ih (fun x hx => hne x (by simp [hx])) ws (by simpa using h)]
-      simp [Chunk.bytes]
+      by_cases har : alignRight = true
+      · simp [har, padChunks_bytes, Chunk.bytes]
+      · simp [har, padChunks_bytes, Chunk.bytes]
 
 theorem rowTexts_ne_nil (w : Nat → Nat → Int) (i : Nat) : ∀ t ∈ rowTexts w i, t ≠ [] := by
   intro t ht
@@ -121,10 +141,10 @@ theorem foldl_max_ge (c : Nat) (blk : List Line) :
       · exact h.2 l hl
 
 theorem blockWidth_ge (c : Nat) (blk : List Line) (l : Line) (h : l ∈ blk) : cellW c l ≤ blockWidth c blk :=
-  (foldl_max_ge c blk 0).2 l h
+  (foldl_max_ge c blk minwidth).2 l h
 
 theorem cellW_rowL (w : Nat → Nat → Int) (i j : Nat) (hj : j < (rowTexts w i).length) :
-    cellW j (rowL w i) = ((rowTexts w i)[j]).length + 1 := by
+    cellW j (rowL w i) = ((rowTexts w i)[j]).length + padding := by
   have : (rowCells w i)[j]? = some ⟨(rowTexts w i)[j], true⟩ := by
     rw [rowCells_eq, List.getElem?_append_left (by simpa using hj)]
     simp [hj]
@@ -140,11 +160,15 @@ theorem pad_ok (n : Nat) (w : Nat → Nat → Int) (i : Nat) (hi : i < n) :
   simp only [List.getElem_zip]
   have hw : (widthsUpTo n w i)[j]'(by simp [widthsUpTo]; exact hj') = colW n w j := by
     simp [widthsUpTo]
-  rw [hw, ← cellW_rowL w i j hjt]
-  apply blockWidth_ge
-  simp only [rowsFrom, List.mem_map]
-  refine ⟨i, ?_, rfl⟩
-  rw [List.mem_range'_1]
+  have hge : ((rowTexts w i)[j]).length + padding ≤ colW n w j := by
+    rw [← cellW_rowL w i j hjt]
+    apply blockWidth_ge
+    simp only [rowsFrom, List.mem_map]
+    refine ⟨i, ?_, rfl⟩
+    rw [List.mem_range'_1]
+    omega
+  have := padding_pos
+  rw [hw]
   omega
 
 /-! ### reading the bytes back -/
@@ -203,10 +227,15 @@ theorem fields_tok (t : List Char) (hne : t ≠ []) (h : ' ' ∉ t) : fields t =
   | nil => exact absurd rfl hne
   | cons a as => simp
 
-theorem fields_cells (ps : List (Nat × List Char))
+/-- right-aligned cells: `k ≥ 1` blanks, then the text -/
+def cellBytesR (p : Nat × List Char) : List Char := List.replicate (p.1 - p.2.length) ' ' ++ p.2
+/-- left-aligned cells: the text, then `k ≥ 1` blanks -/
+def cellBytesL (p : Nat × List Char) : List Char := p.2 ++ List.replicate (p.1 - p.2.length) ' '
+
+theorem fields_cellsR (ps : List (Nat × List Char))
     (h : ∀ p ∈ ps, p.2.length + 1 ≤ p.1 ∧ p.2 ≠ [] ∧ ' ' ∉ p.2) :
-    fields (ps.flatMap cellBytes) = ps.map Prod.snd ∧
-      (ps.flatMap cellBytes = [] ∨ ∃ Y, ps.flatMap cellBytes = ' ' :: Y) := by
+    fields (ps.flatMap cellBytesR) = ps.map Prod.snd ∧
+      (ps.flatMap cellBytesR = [] ∨ ∃ Y, ps.flatMap cellBytesR = ' ' :: Y) := by
   induction ps with
   | nil => simp [fields, splitOn, splitAux]
   | cons p ps ih =>
@@ -214,7 +243,7 @@ theorem fields_cells (ps : List (Nat × List Char))
     obtain ⟨hp1, hp2, hp3⟩ := h p (by simp)
     have hk : p.1 - p.2.length = (p.1 - p.2.length - 1) + 1 := by omega
     constructor
-    · simp only [List.flatMap_cons, cellBytes, List.append_assoc, fields_spaces, List.map_cons]
+    · simp only [List.flatMap_cons, cellBytesR, List.append_assoc, fields_spaces, List.map_cons]
       rcases ih2 with h0 | ⟨Y, hY⟩
       · rw [h0, List.append_nil, fields_tok _ hp2 hp3]
         rw [h0] at ih1
@@ -224,10 +253,35 @@ theorem fields_cells (ps : List (Nat × List Char))
         rw [hY, fields_space] at ih1
         rw [ih1]
     · right
-      refine ⟨List.replicate (p.1 - p.2.length - 1) ' ' ++ p.2 ++ ps.flatMap cellBytes, ?_⟩
-      simp only [List.flatMap_cons, cellBytes]
+      refine ⟨List.replicate (p.1 - p.2.length - 1) ' ' ++ p.2 ++ ps.flatMap cellBytesR, ?_⟩
+      simp only [List.flatMap_cons, cellBytesR]
       rw [hk, List.replicate_succ]
       simp
+
+theorem fields_cellsL (ps : List (Nat × List Char))
+    (h : ∀ p ∈ ps, p.2.length + 1 ≤ p.1 ∧ p.2 ≠ [] ∧ ' ' ∉ p.2) :
+    fields (ps.flatMap cellBytesL) = ps.map Prod.snd := by
+  induction ps with
+  | nil => simp [fields, splitOn, splitAux]
+  | cons p ps ih =>
+    obtain ⟨hp1, hp2, hp3⟩ := h p (by simp)
+    have hk : p.1 - p.2.length = (p.1 - p.2.length - 1) + 1 := by omega
+    simp only [List.flatMap_cons, cellBytesL, List.map_cons, List.append_assoc]
+    rw [hk, List.replicate_succ, List.cons_append, fields_tok_space _ _ hp2 hp3, fields_spaces,
+      ih (fun q hq => h q (by simp [hq]))]
+
+theorem cellBytes_eq : cellBytes = if alignRight then cellBytesR else cellBytesL := by
+  funext p
+  simp only [cellBytes, padChar_eq]
+  split <;> rfl
+
+theorem fields_cells (ps : List (Nat × List Char))
+    (h : ∀ p ∈ ps, p.2.length + 1 ≤ p.1 ∧ p.2 ≠ [] ∧ ' ' ∉ p.2) :
+    fields (ps.flatMap cellBytes) = ps.map Prod.snd := by
+  rw [cellBytes_eq]
+  split
+  · exact (fields_cellsR ps h).1
+  · exact fields_cellsL ps h
 
 theorem rowTexts_plain (w : Nat → Nat → Int) (i : Nat) : ∀ t ∈ rowTexts w i, ∀ c ∈ t, Plain c := by
   intro t ht c hc
@@ -246,15 +300,17 @@ theorem fields_rowBytes (n : Nat) (w : Nat → Nat → Int) (i : Nat) (hi : i < 
     refine ⟨pad_ok n w i hi p hp, rowTexts_ne_nil w i _ (zip_snd_mem hp), ?_⟩
     intro hsp
     exact (rowTexts_plain w i _ (zip_snd_mem hp) ' ' hsp).2.2 rfl)
-  rw [rowBytes, h.1, List.map_snd_zip]
+  rw [rowBytes, h, List.map_snd_zip]
   simp [widthsUpTo, rowTexts_length]
 
 theorem rowBytes_no_nl (n : Nat) (w : Nat → Nat → Int) (i : Nat) : '\n' ∉ rowBytes n w i := by
   intro h
-  simp only [rowBytes, List.mem_flatMap, cellBytes, List.mem_append, List.mem_replicate] at h
-  obtain ⟨p, hp, hc | hc⟩ := h
-  · exact absurd hc.2 (by decide)
-  · exact (rowTexts_plain w i _ (zip_snd_mem hp) '\n' hc).2.1 rfl
+  simp only [rowBytes, List.mem_flatMap, cellBytes] at h
+  obtain ⟨p, hp, hc⟩ := h
+  have hpad : '\n' ∉ List.replicate (p.1 - p.2.length) padChar := by
+    rw [padChar_eq]; intro hm; exact absurd (List.mem_replicate.mp hm).2 (by decide)
+  have htxt : '\n' ∉ p.2 := fun hm => (rowTexts_plain w i _ (zip_snd_mem hp) '\n' hm).2.1 rfl
+  split at hc <;> rcases List.mem_append.mp hc with hc | hc <;> first | exact hpad hc | exact htxt hc
 
 def ln1 : List Char := "TYPE: TSP".toList
 def lnDim : List Char := "DIMENSION: ".toList
@@ -264,10 +320,26 @@ def ln5 : List Char := "EDGE_WEIGHT_FORMAT: LOWER_DIAG_ROW".toList
 def ln6 : List Char := "EDGE_WEIGHT_SECTION".toList
 def lnEOF : List Char := "EOF".toList
 
-theorem hdr1_eq : hdr1 = ln1 ++ ['\n'] := by rfl
-theorem hdr2_eq (n : Nat) : hdr2 n = lnDim ++ decNat n ++ ['\n'] := rfl
-theorem hdr3_eq : hdr3 = ln3 ++ ['\n'] ++ (ln4 ++ ['\n']) ++ (ln5 ++ ['\n']) ++ (ln6 ++ ['\n']) := by rfl
-theorem trailer_eq : trailer = lnEOF ++ ['\n'] := by rfl
+/-- the writes before the weight section concatenate to the generated header text -/
+theorem hdrWrites_flatten (n : Nat) : (hdrWrites n).flatten = headerText n := by
+  simp [hdrWrites, hdrSegs, Gen.Tsp.found_header, Gen.Tsp.hdrWrites, segBytes, headerText, hdrBeforeN, hdrAfterN,
+    Gen.Tsp.hdrBeforeN, Gen.Tsp.hdrAfterN]
+
+theorem trailerWrites_flatten : trailerWrites.flatten = trailerText := rfl
+
+/-- **the header keywords** (hard-wired: the property dictates them) -/
+theorem hdrBeforeN_eq : hdrBeforeN.toList = ln1 ++ '\n' :: lnDim := by rfl
+
+theorem hdrAfterN_eq : hdrAfterN.toList =
+    '\n' :: (ln3 ++ '\n' :: (ln4 ++ '\n' :: (ln5 ++ '\n' :: (ln6 ++ ['\n'])))) := by rfl
+
+theorem headerText_eq (n : Nat) :
+    headerText n = ln1 ++ '\n' :: (lnDim ++ (decNat n ++ '\n' :: (ln3 ++ '\n' :: (ln4 ++ '\n' :: (ln5 ++ '\n' ::
+      (ln6 ++ ['\n'])))))) := by
+  rw [headerText, hdrBeforeN_eq, hdrAfterN_eq]
+  simp only [List.append_assoc, List.cons_append]
+
+theorem trailerText_eq : trailerText = lnEOF ++ ['\n'] := by rfl
 
 /-- the lines of the fault-free output, without their line breaks -/
 def outLines (n : Nat) (w : Nat → Nat → Int) : List (List Char) :=
@@ -275,9 +347,9 @@ def outLines (n : Nat) (w : Nat → Nat → Int) : List (List Char) :=
 
 theorem out_eq_lines (n : Nat) (w : Nat → Nat → Int) :
     (lib n w noFaults).out = (outLines n w).flatMap (fun l => l ++ ['\n']) := by
-  rw [lib_noFaults, body_bytes, outLines, hdr1_eq, hdr3_eq, trailer_eq, hdr2_eq]
+  rw [lib_noFaults, body_bytes, outLines, hdrWrites_flatten, headerText_eq, trailerWrites_flatten, trailerText_eq]
   simp only [List.flatMap_append, List.flatMap_cons, List.flatMap_nil, List.flatMap_map, List.append_assoc,
-    List.append_nil]
+    List.append_nil, List.cons_append, List.nil_append]
 
 theorem decNat_no_nl (n : Nat) : '\n' ∉ decNat n := fun h => (decNat_plain n _ h).2.1 rfl
 theorem decNat_no_space (n : Nat) : ' ' ∉ decNat n := fun h => (decNat_plain n _ h).2.2 rfl
@@ -313,9 +385,13 @@ def tk5b : List Char := "LOWER_DIAG_ROW".toList
 def tk6 : List Char := "EDGE_WEIGHT_SECTION".toList
 def tkEOF : List Char := "EOF".toList
 
-theorem expected_eq (n : Nat) (w : Nat → Nat → Int) :
-    expected n w = [[tk1a, tk1b], [tokDim, decNat n], [tk3a, tk3b], [tk4a, tk4b], [tk5a, tk5b], [tk6]] ++
-      (List.range n).map (expectedRow w) ++ [[tkEOF], []] := rfl
+/-- the header lines, without their line breaks -/
+def hdrLines (n : Nat) : List (List Char) := [ln1, lnDim ++ decNat n, ln3, ln4, ln5, ln6]
+
+theorem headerText_lines (n : Nat) : headerText n = (hdrLines n).flatMap (fun l => l ++ ['\n']) := by
+  rw [headerText_eq]
+  simp only [hdrLines, List.flatMap_cons, List.flatMap_nil, List.append_assoc, List.append_nil,
+    List.cons_append, List.nil_append]
 
 theorem fields_ln1 : fields ln1 = [tk1a, tk1b] := by rfl
 theorem fields_ln3 : fields ln3 = [tk3a, tk3b] := by rfl
@@ -332,6 +408,37 @@ theorem tokDim_no_space : ' ' ∉ tokDim := by decide
 theorem fields_dim (n : Nat) : fields (lnDim ++ decNat n) = [tokDim, decNat n] := by
   have : lnDim ++ decNat n = tokDim ++ ' ' :: decNat n := by rw [lnDim_eq]; simp
   rw [this, fields_tok_space _ _ tokDim_ne tokDim_no_space, fields_tok _ (decNat_ne_nil n) (decNat_no_space n)]
+
+theorem hdrLines_no_nl (n : Nat) : ∀ l ∈ hdrLines n, '\n' ∉ l := by
+  intro l hl
+  simp only [hdrLines, List.mem_cons, List.not_mem_nil, or_false] at hl
+  rcases hl with rfl | rfl | rfl | rfl | rfl | rfl
+  · decide
+  · intro h
+    rcases List.mem_append.mp h with h | h
+    · revert h; decide
+    · exact decNat_no_nl n h
+  · decide
+  · decide
+  · decide
+  · decide
+
+/-- **the header and trailer keywords as they read back** (for the current string literals) -/
+theorem expectedHeader_eq (n : Nat) :
+    expectedHeader n = [[tk1a, tk1b], [tokDim, decNat n], [tk3a, tk3b], [tk4a, tk4b], [tk5a, tk5b], [tk6]] := by
+  rw [expectedHeader, headerText_lines, lines_flatMap _ (hdrLines_no_nl n), List.dropLast_concat]
+  simp only [hdrLines, List.map_cons, List.map_nil, fields_dim, fields_ln1, fields_ln3, fields_ln4, fields_ln5,
+    fields_ln6]
+
+theorem expectedTrailer_eq : (lines trailerText).map fields = [[tkEOF], []] := by
+  have h : trailerText = [lnEOF].flatMap (fun l => l ++ ['\n']) := by rw [trailerText_eq]; simp
+  rw [h, lines_flatMap _ (by intro l hl; simp at hl; subst hl; decide)]
+  simp only [List.cons_append, List.nil_append, List.map_cons, List.map_nil, fields_lnEOF, fields_nil]
+
+theorem expected_eq (n : Nat) (w : Nat → Nat → Int) :
+    expected n w = [[tk1a, tk1b], [tokDim, decNat n], [tk3a, tk3b], [tk4a, tk4b], [tk5a, tk5b], [tk6]] ++
+      (List.range n).map (expectedRow w) ++ [[tkEOF], []] := by
+  rw [expected, expectedHeader_eq, expectedTrailer_eq]
 
 theorem parse_out (n : Nat) (w : Nat → Nat → Int) : parse (lib n w noFaults).out = expected n w := by
   rw [parse, out_eq_lines, lines_flatMap _ (outLines_no_nl n w), expected_eq]
@@ -352,48 +459,44 @@ theorem lib_success_eq (n : Nat) (w : Nat → Nat → Int) (f : Nat → WriteRes
     (hs : ∀ k c, f k ≠ .shortNil c) (h : (lib n w f).err = none) : lib n w f = lib n w noFaults := by
   rw [lib_noFaults]
   rw [lib_unfold] at h ⊢
-  rcases h1 : write f ⟨0, []⟩ hdr1 with ⟨s1, n1, _ | e1⟩
-  rotate_left
-  · rw [h1] at h; simp [Res.of] at h
-  rw [h1] at h
-  dsimp only at h ⊢
-  have e1 : s1 = ⟨1, hdr1⟩ := by simpa using write_none_ok hs h1
-  subst e1
-  rcases h2 : write f ⟨1, hdr1⟩ (hdr2 n) with ⟨s2, n2, _ | e2⟩
-  rotate_left
-  · rw [h2] at h; simp [Res.of] at h
-  rw [h2] at h
-  dsimp only at h ⊢
-  have e2 : s2 = ⟨2, hdr1 ++ hdr2 n⟩ := by simpa using write_none_ok hs h2
-  subst e2
-  rcases h3 : write f ⟨2, hdr1 ++ hdr2 n⟩ hdr3 with ⟨s3, n3, _ | e3⟩
+  rcases h3 : writeAll f ⟨0, []⟩ (hdrWrites n) with ⟨s3, _ | e3⟩
   rotate_left
   · rw [h3] at h; simp [Res.of] at h
   rw [h3] at h
   dsimp only at h ⊢
-  have e3 : s3 = ⟨3, hdr1 ++ hdr2 n ++ hdr3⟩ := by simpa using write_none_ok hs h3
+  have e3 := writeAll_none_ok hs _ _ _ h3
   subst e3
-  rcases h4 : writeAll0 f ⟨3, hdr1 ++ hdr2 n ++ hdr3⟩ (body n w) with ⟨s4, _ | e4⟩
+  rcases h4 : writeAll0 f _ (body n w) with ⟨s4, _ | e4⟩
   rotate_left
   · rw [h4] at h; simp [Res.of] at h
   rw [h4] at h
   dsimp only at h ⊢
-  have e4 : s4 = ⟨3 + (body n w).length, hdr1 ++ hdr2 n ++ hdr3 ++ (body n w).flatMap Chunk.bytes⟩ := by
-    simpa using writeAll0_none_ok hs _ _ _ h4
+  have e4 := writeAll0_none_ok hs _ _ _ h4
   subst e4
-  rcases h5 : write f ⟨3 + (body n w).length, hdr1 ++ hdr2 n ++ hdr3 ++ (body n w).flatMap Chunk.bytes⟩ trailer
-    with ⟨s5, n5, _ | e5⟩
+  rcases h5 : writeAll f _ trailerWrites with ⟨s5, _ | e5⟩
   rotate_left
   · rw [h5] at h; simp [Res.of] at h
   dsimp only
-  have e5 := write_none_ok hs h5
+  have e5 := writeAll_none_ok hs _ _ _ h5
   subst e5
   simp [Res.of]
-  omega
 
 theorem write_ok {f : Nat → WriteResult} (s : W) (p : List Char) (h : f s.calls = .ok) :
     write f s p = (⟨s.calls + 1, s.out ++ p⟩, p.length, none) := by
   simp [write, h]
+
+theorem writeAll_ok {f : Nat → WriteResult} (ps : List (List Char)) :
+    ∀ s : W, (∀ k, s.calls ≤ k → k < s.calls + ps.length → f k = .ok) →
+      writeAll f s ps = (⟨s.calls + ps.length, s.out ++ ps.flatten⟩, none) := by
+  induction ps with
+  | nil => intro s _; simp [writeAll]
+  | cons p ps ih =>
+    intro s h
+    have h0 := h s.calls (Nat.le_refl _) (by simp)
+    simp only [writeAll, write_ok s p h0]
+    rw [ih _ (fun k h1 h2 => h k (by simp at h1; omega) (by simp at h1 h2 ⊢; omega))]
+    simp
+    omega
 
 theorem writeAll0_ok {f : Nat → WriteResult} (cs : List Chunk) :
     ∀ s : W, (∀ k, s.calls ≤ k → k < s.calls + cs.length → f k = .ok) →
@@ -413,18 +516,12 @@ theorem lib_ok_eq (n : Nat) (w : Nat → Nat → Int) (f : Nat → WriteResult)
   rw [lib_noFaults] at h ⊢
   dsimp only at h
   rw [lib_unfold]
-  rw [write_ok (f := f) ⟨0, []⟩ hdr1 (h 0 (by omega))]
+  rw [writeAll_ok (f := f) (hdrWrites n) ⟨0, []⟩ (fun k _ h2 => h k (by simp at h2; omega))]
   dsimp only
-  rw [write_ok (f := f) ⟨0 + 1, [] ++ hdr1⟩ (hdr2 n) (h 1 (by omega))]
+  rw [writeAll0_ok (f := f) (body n w) _ (fun k _ h2 => h k (by simp at h2; omega))]
   dsimp only
-  rw [write_ok (f := f) ⟨0 + 1 + 1, [] ++ hdr1 ++ hdr2 n⟩ hdr3 (h 2 (by omega))]
-  dsimp only
-  rw [writeAll0_ok (f := f) (body n w) ⟨0 + 1 + 1 + 1, [] ++ hdr1 ++ hdr2 n ++ hdr3⟩
-    (fun k h1 h2 => h k (by simp at h2; omega))]
-  dsimp only
-  rw [write_ok (f := f) _ trailer (h _ (by simp))]
+  rw [writeAll_ok (f := f) trailerWrites _ (fun k _ h2 => h k (by simp at h2; omega))]
   simp [Res.of]
-  omega
 
 /-! ### `decNat` is the decimal numeral -/
 
